@@ -1305,15 +1305,16 @@ Proof.
   destruct T as (files1 & files2 & _ & _ & _ & E1 & E2 & D). rewrite (E1 3%N eq_refl), (E2 3%N eq_refl) in D. exact D.
 Qed.
 
-(* FINDING 2: the hypothesis foreign_family is needed.  Old family a_r0_ (basename "a_r0"), new family a_ (basename "a"):
-   the old files a_r0_r00000.log and a_r0_rCURRENT.log pass the family test of the new writer (infix "r0_r00000": an "r",
-   a digit, one more byte), they count as index 0, and the numbering of the new family starts at 1: there is no
-   a_r00000.log, the family of the new writer is not what numbers_stream describes for a fresh start.  No record is lost. *)
+(* The hypothesis foreign_family and the family test.  Old family a_r0_ (basename "a_r0"), new family a_ (basename "a").  Before
+   the repair of the number filter ("r" + digits and nothing else) the old files a_r0_r00000.log and a_r0_rCURRENT.log passed
+   the family test of the new writer (infix "r0_r00000": an "r", a digit, one more byte), counted as index 0, and the numbering
+   of the new family started at 1.  With the repaired filter they are foreign: the new family is exactly what a fresh start
+   gives.  (foreign_family is still needed in general: a reset to a family whose names the old files DO follow.) *)
 Definition ex_old := ex_cfg "a_r0" (Some 8) false.
-Example ex_reset_interference :
-  num_member ex_a (cname ex_old) = true /\ num_member ex_a (rname ex_old 0) = true
+Example ex_reset_no_interference :
+  num_member ex_a (cname ex_old) = false /\ num_member ex_a (rname ex_old 0) = false
   /\ ex_dir (OStart ex_old :: ex_ops1 ++ [OReset ex_a] ++ ex_ops2 ++ [OStop])
-     = [(bs "a_r00001.log", bs "ijkl"); (bs "a_r00002.log", bs "mnop"); (bs "a_r0_r00000.log", bs "abcd");
+     = [(bs "a_r00000.log", bs "ijkl"); (bs "a_r00001.log", bs "mnop"); (bs "a_r0_r00000.log", bs "abcd");
         (bs "a_r0_rCURRENT.log", bs "efgh"); (bs "a_rCURRENT.log", bs "q")]
   /\ ex_dir (OStart ex_a :: ex_ops2 ++ [OStop])
      = [(bs "a_r00000.log", bs "ijkl"); (bs "a_r00001.log", bs "mnop"); (bs "a_rCURRENT.log", bs "q")].
